@@ -40,6 +40,7 @@ class Obligation:
         self.min_paths = min_paths
         self.expect_fail = expect_fail
         self.env_stub = env_stub
+        self.canon = False
         ptxt = ",".join(f"{k}={_fmt(v)}" for k, v in params.items())
         self.id = f"{prop}/{name}" + (f"[{ptxt}]" if ptxt else "")
 
@@ -53,7 +54,8 @@ def _fmt(v):
 
 
 def ob(prop, params=None, tier="quick", gating=True, generic=False, max_paths=6000, rlimit=3_000_000,
-       wall_s=900.0, bounds="", validate=True, min_paths=1, goal_rlimit=30_000_000, name=None, expect_fail=False, env_stub=False):
+       wall_s=900.0, bounds="", validate=True, min_paths=1, goal_rlimit=30_000_000, name=None, expect_fail=False, env_stub=False,
+       canon=False):
     """decorator: register body(E, **p) once per parameter dict in `params`"""
     def deco(fn):
         plist = params if params is not None else [{}]
@@ -65,6 +67,7 @@ def ob(prop, params=None, tier="quick", gating=True, generic=False, max_paths=60
                 Obligation(prop, name or fn.__name__, fn, p, t, gating, generic, mpaths, rlimit, wall_s,
                            bounds or (fn.__doc__ or "").strip().split("\n")[0], validate, min_paths, goal_rlimit,
                            expect_fail, env_stub))
+            REGISTRY[prop][-1].canon = canon
         return fn
     return deco
 
@@ -164,6 +167,11 @@ def run_obligation(o: Obligation, seed=0):
             samples.append((asg, [(l, [_tofloat(v) for v in vals]) for l, vals in E.record]))
 
     ex = explore.Explorer(max_paths=o.max_paths, rlimit=o.rlimit, generic=o.generic, seed=seed, wall_s=o.wall_s)
+    from . import poly
+    poly.ON[0] = bool(o.canon)
+    poly.reset()
+    core.POSVARS.clear()
+    core._SIGN_MEMO.clear()
     budget = None
     sys.setrecursionlimit(20000)
     sys.set_int_max_str_digits(0)
@@ -332,6 +340,9 @@ def load_known():
     if os.path.exists(path):
         for line in open(path):
             line = line.strip()
+            if line.startswith("fixed:"):
+                # repaired by a "fix:" commit in /repo: recorded only, suppresses nothing
+                continue
             if line and not line.startswith("#"):
                 out.append(json.loads(line))
     return out
